@@ -121,15 +121,18 @@ Record centry := mkEntry {
   e_cmds : list str      (* data: routecmd{svc, prefix, env}.build() *)
 }.
 
-(* the map key of makeConfig / serviceConfig: Node + "." + ServiceID *)
-Definition inst_key (node sid : str) : str := node ++ 46 :: sid.
+(* the map key of makeConfig / serviceConfig, after the repair (fix: commit f815d97 in /repo):
+   type instanceKey struct{ node, serviceID string }, compared field by field *)
+Definition ikey := (str * str)%type.
+Definition inst_key (node sid : str) : ikey := (node, sid).
+Definition key_eqb (a b : ikey) : bool := beq (fst a) (fst b) && beq (snd a) (snd b).
 
-(* map[string]map[string]bool as an association list of key lists, in insertion order *)
-Definition smap := list (str * list str).
-Fixpoint smap_add (m : smap) (name k : str) : smap :=
+(* map[string]map[instanceKey]bool as an association list of key lists, in insertion order *)
+Definition smap := list (str * list ikey).
+Fixpoint smap_add (m : smap) (name : str) (k : ikey) : smap :=
   match m with
   | [] => [(name, [k])]
-  | (n, ks) :: r => if beq n name then (n, if existsb (beq k) ks then ks else ks ++ [k]) :: r
+  | (n, ks) :: r => if beq n name then (n, if existsb (key_eqb k) ks then ks else ks ++ [k]) :: r
                     else (n, ks) :: smap_add r name k
   end.
 Definition group (passing : list hcheck) : smap :=
@@ -145,18 +148,18 @@ Definition entry_cmds (prefix : str) (e : centry) : outcome (list str) :=
   (check Nat.eqb (length (e_cmds e)) (length (route_tags prefix (e_tags e))) else err_cmd_count;
    Ok (e_cmds e))%outcome.
 
-Fixpoint service_entries (prefix : str) (keys : list str) (svcs : list centry) : outcome (list str) :=
+Fixpoint service_entries (prefix : str) (keys : list ikey) (svcs : list centry) : outcome (list str) :=
   match svcs with
   | [] => Ok []
   | e :: r =>
       (do rest <- service_entries prefix keys r;
-       if existsb (beq (inst_key (e_node e) (e_sid e))) keys
+       if existsb (key_eqb (inst_key (e_node e) (e_sid e))) keys
        then (do cs <- entry_cmds prefix e; Ok (cs ++ rest))
        else Ok rest)%outcome
   end.
 
 (* serviceConfig(name, passing) *)
-Definition service_config (prefix : str) (catalog : list centry) (name : str) (keys : list str)
+Definition service_config (prefix : str) (catalog : list centry) (name : str) (keys : list ikey)
   : outcome (list str) :=
   if beq name [] || match keys with [] => true | _ => false end then Ok []
   else service_entries prefix keys (catalog_service catalog name).
@@ -197,6 +200,42 @@ Definition svc_config_unrepaired (prefix : str) (status : list str) (strict : bo
            (checks : list hcheck) (catalog : list centry) : outcome str :=
   make_config prefix catalog
     (passing_services (checks_with_tag_prefix_unrepaired prefix checks) status strict).
+
+(* ---- makeConfig / serviceConfig as they were before f815d97: the map key was the string
+        Node + "." + ServiceID, which does not determine the instance (node "a", id "b.c" and
+        node "a.b", id "c").  Kept for the refutation theorems only. ---- *)
+Definition inst_key_unrepaired (node sid : str) : str := node ++ 46 :: sid.
+Definition smap_unrepaired := list (str * list str).
+Fixpoint smap_add_unrepaired (m : smap_unrepaired) (name k : str) : smap_unrepaired :=
+  match m with
+  | [] => [(name, [k])]
+  | (n, ks) :: r => if beq n name then (n, if existsb (beq k) ks then ks else ks ++ [k]) :: r
+                    else (n, ks) :: smap_add_unrepaired r name k
+  end.
+Definition group_unrepaired (passing : list hcheck) : smap_unrepaired :=
+  fold_left (fun m c => smap_add_unrepaired m (c_sname c) (inst_key_unrepaired (c_node c) (c_sid c))) passing [].
+Fixpoint service_entries_unrepaired (prefix : str) (keys : list str) (svcs : list centry) : outcome (list str) :=
+  match svcs with
+  | [] => Ok []
+  | e :: r =>
+      (do rest <- service_entries_unrepaired prefix keys r;
+       if existsb (beq (inst_key_unrepaired (e_node e) (e_sid e))) keys
+       then (do cs <- entry_cmds prefix e; Ok (cs ++ rest))
+       else Ok rest)%outcome
+  end.
+Fixpoint all_configs_unrepaired (prefix : str) (catalog : list centry) (m : smap_unrepaired) : outcome (list str) :=
+  match m with
+  | [] => Ok []
+  | (name, keys) :: r =>
+      (do c <- (if beq name [] || match keys with [] => true | _ => false end then Ok []
+                else service_entries_unrepaired prefix keys (catalog_service catalog name));
+       do rest <- all_configs_unrepaired prefix catalog r;
+       Ok (c ++ rest))%outcome
+  end.
+Definition svc_config_key_unrepaired (prefix : str) (status : list str) (strict : bool)
+           (checks : list hcheck) (catalog : list centry) : outcome str :=
+  (do ls <- all_configs_unrepaired prefix catalog (group_unrepaired (watch_passing prefix status strict checks));
+   Ok (join (sort_desc ls) [10]))%outcome.
 
 (* ---- registry/consul/kv.go: listKV with separator = true, the text watchKV pushes for
         the manual overrides: for every key under the KV path, in the order Consul lists
